@@ -7,6 +7,7 @@ set -u
 rev=""
 if [ "$1" = "-R" ]; then rev="-R"; shift; fi
 src="$1"; shift
+case "$src" in commit:*) ;; *) src=$(readlink -f "$src");; esac
 d=$(mktemp -d /tmp/rcvar.XXXXXX)
 trap 'rm -rf "$d"' EXIT
 rsync -a --exclude .git --exclude examples /repo/ "$d/"
